@@ -2,7 +2,7 @@
    WriterChunks (chunk independence), LayoutRender (no lost cell) and the C07 surface layer. *)
 From Coq Require Import List Arith Bool NArith ZArith Lia Sorting.Sorted.
 From SNT Require Import Base.Outcome Surface.Bounds Surface.BoundsProofs Surface.Shape Surface.ShapeProofs
-  Render.CellLayout Render.Writer Render.WriterFrame Render.WriterChunks Render.LayoutFacts Render.LayoutRender
+  Render.CellLayout Render.Writer Render.TokFuel Render.WriterTty Render.WriterFrame Render.WriterChunks Render.LayoutFacts Render.LayoutRender
   Render.TextView.
 Import ListNotations.
 Local Arguments Nat.modulo : simpl never.
@@ -29,28 +29,12 @@ Qed.
 (* ---------- chunk independence ---------- *)
 Theorem chunking_programs ctx sh data ops1 ops2 :
   InBounds sh (length data) -> map merge_op ops1 = map merge_op ops2 ->
-  exists a fa b fb,
-    wops_run ctx (writer_new sh data) ops1 = Ok (a, fa) /\
-    wops_run ctx (writer_new sh data) ops2 = Ok (b, fb) /\
-    w_data a = w_data b /\ (~ Dead a -> a = b /\ fa = fb).
-Proof.
-  intros Hb Hm.
-  destruct (program_chunking ctx ops1 ops2 (writer_new sh data) (writer_new sh data) Hb Hb (sim_refl _) Hm)
-    as (a & fa & b & fb & Ha & Hb' & S & F).
-  exists a, fa, b, fb. split; [exact Ha|]. split; [exact Hb'|]. split; [apply sim_data, S|].
-  intros Hna. split; [apply sim_alive; assumption|apply F, Hna].
-Qed.
+  wops_run ctx (writer_new sh data) ops1 = wops_run ctx (writer_new sh data) ops2.
+Proof. intros Hb Hm. now apply program_chunking. Qed.
 
 Theorem chunking_midstream ctx st chunks1 chunks2 :
-  InBounds (w_sh st) (length (w_data st)) -> concat chunks1 = concat chunks2 ->
-  exists a fa b fb,
-    write_chunks ctx st chunks1 = Ok (a, fa) /\ write_chunks ctx st chunks2 = Ok (b, fb) /\
-    w_data a = w_data b /\ (~ Dead a -> a = b /\ fa = fb).
-Proof.
-  intros Hb Hc. destruct (write_chunks_partition ctx st chunks1 chunks2 Hb Hc) as (a & fa & b & fb & Ha & Hb' & S & F).
-  exists a, fa, b, fb. split; [exact Ha|]. split; [exact Hb'|]. split; [apply sim_data, S|].
-  intros Hna. split; [apply sim_alive; assumption|apply F, Hna].
-Qed.
+  concat chunks1 = concat chunks2 -> write_chunks ctx st chunks1 = write_chunks ctx st chunks2.
+Proof. apply write_chunks_partition. Qed.
 
 (* ---------- no lost cell ---------- *)
 (* where the measuring run of Text::layout puts the cells it gives a position to *)
@@ -123,16 +107,17 @@ Proof.
 Qed.
 
 (* Text::layout followed by Text::render, on a view cut out of a canvas by any chain of
-   view / transpose operations (plain, offset, strided, transposed) *)
-Theorem text_view_layout_render ctx cells wraps minh minw maxh maxw H W sh w data :
+   view / transpose operations (plain, offset, strided, transposed), the layout placed at any
+   position (pr, pc) by its parent such that the reported rectangle lies inside the view *)
+Theorem text_view_layout_render ctx cells wraps minh minw maxh maxw H W sh w data pr pc :
   1 <= maxw -> minh <= maxh -> minw <= maxw -> no_cr ctx cells = true ->
   (Z.of_nat (Nat.max H W) <= i64_max)%Z -> Rep H W sh w -> H * W <= length data ->
   let lay := text_layout ctx cells wraps minh minw maxh maxw in
   fst (text_size ctx cells wraps maxw) <= maxh ->
-  0 < fst lay <= sh_height sh -> 0 < snd lay <= sh_width sh ->
-  exists st', text_render ctx sh data (fst lay) (snd lay) cells wraps = Ok st' /\
+  0 < fst lay -> pr + fst lay <= sh_height sh -> 0 < snd lay -> pc + snd lay <= sh_width sh ->
+  exists st', text_render ctx sh data pr pc (fst lay) (snd lay) cells wraps = Ok st' /\
     Frame sh data (w_data st') /\
-    Appear sh (fst lay) (snd lay) (text_places ctx cells wraps maxw) data (w_data st') /\
+    Appear (rect_view sh pr pc (fst lay) (snd lay)) (fst lay) (snd lay) (text_places ctx cells wraps maxw) data (w_data st') /\
     (wraps = true -> map snd (text_places ctx cells wraps maxw) = printables ctx cells) /\
     (wraps = false ->
        map snd (text_places ctx cells wraps maxw) =
@@ -140,42 +125,28 @@ Theorem text_view_layout_render ctx cells wraps minh minw maxh maxw H W sh w dat
        map fst (text_places ctx cells wraps maxw) =
          somes (nowrap_place (snd lay) (lcells ctx (expand ctx cells)) 0 0)).
 Proof.
-  intros Hm Hhh Hww Hcr Hmax Hrep Hlen lay Hfit Hlh Hlw.
+  intros Hm Hhh Hww Hcr Hmax Hrep Hlen lay Hfit Hlh0 Hlh Hlw0 Hlw.
   assert (Elay : lay = (clamp_nat (fst (text_size ctx cells wraps maxw)) minh maxh,
                         clamp_nat (snd (text_size ctx cells wraps maxw)) minw maxw)).
   { unfold lay, text_layout. destruct (text_size ctx cells wraps maxw); reflexivity. }
   pose proof (clamp_nat_spec (fst (text_size ctx cells wraps maxw)) minh maxh Hhh) as [_ Hch].
   pose proof (clamp_nat_spec (snd (text_size ctx cells wraps maxw)) minw maxw Hww) as [Hcw1 Hcw2].
   pose proof (text_size_width_le ctx cells wraps maxw) as Hwle.
-  set (sub := view sh (Some (0, fst lay)) (Some (0, snd lay))).
-  destruct (view_prefix_dims sh (fst lay) (snd lay)) as [Eh Ew]. fold sub in Eh, Ew.
+  set (sub := rect_view sh pr pc (fst lay) (snd lay)).
+  destruct (rect_view_dims sh pr pc (fst lay) (snd lay)) as [Eh Ew]. fold sub in Eh, Ew.
   assert (Hgood : Good sub (length data)).
-  { apply view_prefix_good; [eapply rep_is_good; eauto|lia|lia]. }
+  { apply rect_view_good; [eapply rep_is_good; eauto|lia|lia]. }
   destruct (layout_render ctx cells wraps maxw sub data Hm Hcr) as (st' & P & F & (S & A & K & O) & Wt & Wf).
   { rewrite Eh, Elay. cbn [fst]. apply Hch, Hfit. }
   { rewrite Ew, Elay. cbn [snd]. apply Hcw2, Hwle. }
   { rewrite Ew, Elay. cbn [snd]. lia. }
   { exact Hgood. }
-  exists st'. unfold text_render. rewrite (apply_layout_prefix H W sh w _ _ Hmax Hrep Hlh Hlw). fold sub.
+  exists st'. unfold text_render. rewrite (apply_layout_rect H W sh w _ _ _ _ Hmax Hrep Hlh0 Hlh Hlw0 Hlw). fold sub.
   split; [exact P|]. split.
-  { eapply frame_weaken; [|exact F]. intros k. apply view_prefix_in_view; lia. }
+  { eapply frame_weaken; [|exact F]. intros k. apply rect_view_in_view; lia. }
   split.
-  { split; [exact S|]. split.
-    - eapply Forall_impl; [|exact A]. intros p [Hp1 Hp2].
-      rewrite Elay. cbn [fst snd]. split; [specialize (Hch Hfit)|specialize (Hcw2 Hwle)]; lia.
-    - split.
-      + intros p c Hin. rewrite <- (view_prefix_offset sh (fst lay) (snd lay)). apply K, Hin.
-      + intros r c Hr Hc Hni.
-        assert (Hout : fst lay <= r \/ snd lay <= c ->
-                       nth_error (kinds (w_data st')) (offset sh r c) = nth_error (kinds data) (offset sh r c)).
-        { intros Hor.
-          assert (Hnot : ~ in_view sub (offset sh r c)).
-          { intros (r' & c' & Hr1 & Hc1 & E). rewrite Eh in Hr1. rewrite Ew in Hc1.
-            unfold sub in E. rewrite view_prefix_offset in E.
-            destruct (rep_good _ _ _ _ Hrep) as [_ Hinj]. destruct (Hinj r' c' r c); try lia. }
-          destruct F as [_ Ff]. unfold kinds. rewrite !nth_error_map, (Ff _ Hnot). reflexivity. }
-        destruct (Nat.lt_ge_cases r (fst lay)) as [Hr'|Hr'], (Nat.lt_ge_cases c (snd lay)) as [Hc'|Hc'];
-          try (apply Hout; lia).
-        rewrite <- (view_prefix_offset sh (fst lay) (snd lay)). apply O; [rewrite Eh|rewrite Ew|]; assumption. }
+  { split; [exact S|]. split; [|split; [exact K|exact O]].
+    eapply Forall_impl; [|exact A]. intros p [Hp1 Hp2].
+    rewrite Elay. cbn [fst snd]. split; [specialize (Hch Hfit)|specialize (Hcw2 Hwle)]; lia. }
   rewrite Ew in Wf. split; assumption.
 Qed.
